@@ -125,9 +125,10 @@ func tokenize(s string) ([]tok, error) {
 }
 
 type sparser struct {
-	ts  []tok
-	pos int
-	src string
+	ts   []tok
+	pos  int
+	src  string
+	noIn bool // parsing the value of a let: the word "in" ends it
 }
 
 func parseSpecExpr(src string) (e SExpr, err error) {
@@ -181,7 +182,10 @@ func (p *sparser) expr() SExpr {
 		p.next()
 		name := p.next().text
 		p.expect("=")
+		saved := p.noIn
+		p.noIn = true
 		v := p.exprNoQuant()
+		p.noIn = saved
 		if p.peek().kind != "id" || p.peek().text != "in" {
 			p.fail("expected 'in' in let")
 		}
@@ -328,7 +332,7 @@ func (p *sparser) cmp() SExpr {
 			x = &SBin{t.text, x, y}
 			continue
 		}
-		if t.kind == "id" && t.text == "in" {
+		if t.kind == "id" && t.text == "in" && !p.noIn {
 			p.next()
 			y := p.add()
 			x = &SBin{"in", x, y}
